@@ -163,7 +163,11 @@ def o_cancelled_clean(w):
 def o_memory(w):
     """no access to the protected value or to job storage after it was released; the value is dropped exactly once"""
     out = [(n, g) for n, g in w.m.violations if n.startswith(('use-after', 'double-free', 'value-dropped-twice'))]
+    # a pipe (unlike pipe_in) holds a *strong* reference: the caller dropping its own Arc does not destroy the Desync, the release is checked
+    # at quiescence by the pipe_closed oracle instead (asking it here was a false alarm of the oracle: C16 candidates that never reproduced)
+    strong = set(pp['var'] for pp in getattr(w, 'pipes', []) if 'consumer' in pp)
     for name, cid in getattr(w, 'canaries', {}).items():
+        if name in strong: continue
         de = w.ghost.get('dropend%d' % cid, NONE_T); n = w.ghost.get('ndrop%d' % cid, ZERO)
         out.append(('value-not-dropped-once-after-drop-returned:canary%d' % cid, And(Ne(de, NONE_T), Ne(n, ONE))))
     return out
